@@ -1,8 +1,9 @@
 SPECIFICATION Spec
 CONSTANTS Units = {1,2,3}
   MaxSusp = 2
-  EarlyReturn = FALSE
-  DecFirst = TRUE
+  EarlyReturn = TRUE
+  DecFirst = FALSE
 INVARIANT NoEarlyStop
 INVARIANT CounterOK
+INVARIANT CounterExact
 CHECK_DEADLOCK FALSE
